@@ -40,6 +40,17 @@ GROUPS += [
 for kl in (16, 24, 32):
     GROUPS.append(G("keyexpand.k%d" % kl, "harness/C01/block.c", "h_keyexpand", BLK, defs=["KLEN=%d" % kl], level="Pc", unwind=40,
                     search=20000, fn=["beltKeyExpand", "beltKeyExpand2"], note="all keys of %d octets" % kl))
+FMT = ["src/crypto/belt/belt_wbl.c", "src/crypto/belt/belt_block.c", "src/crypto/belt/belt_lcl.c", "src/math/zz/zz_mul.c", "src/math/zz/zz_add.c",
+       "src/math/ww.c", "src/core/mem.c", "src/core/util.c", "src/core/blob.c", "src/core/u32.c", "src/core/u64.c", "src/core/u16.c", "src/core/word.c"]
+GROUPS += [
+    G("fmt.table", "harness/C01/fmt.c", "h_fmt_table", FMT, level="X", backend="native", search=1, ndebug=True, timeout=1800,
+      fn=["beltFMTCalcB", "beltFMT_keep"],
+      note="level X: native exhaustive enumeration of the complete finite domain (65535 x 300 pairs) against exact big-integer powers; not a contract"),
+    G("fmt.roundtrip.search", "harness/C01/fmt.c", "h_fmt_rt", FMT, level="N", backend="native", search=20000, fn=["beltFMTStart", "beltFMTStepE", "beltFMTStepD", "beltFMT_keep"],
+      note="native: StepD o StepE == id on a state of exactly beltFMT_keep() octets; NOT proof"),
+    G("fmt.err.search", "harness/C01/fmt.c", "h_fmt_err", FMT, level="N", backend="native", search=20000, fn=["beltFMTEncr", "beltFMTDecr"],
+      note="native: out-of-range alphabet size is answered with ERR_BAD_INPUT; NOT proof"),
+]
 TRUSTED = ["stubs/belt_uf.c: uninterpreted block function with the inverse axiom (discharged separately on belt_block.c)"]
 ASSUMPTIONS = []
 NOT_COVERED = []
